@@ -131,7 +131,16 @@ func c11R2(c *Ctx, rule string) {
 		}
 		var allowed Kinds
 		for i, co := range consumptionOracle {
-			if (co.fn == shortName(s.Fn) || p.inClusterOf(p.funcByShortName(co.fn), s.Fn)) && co.callee == calleeName(s.Call.Common()) && co.arg == s.ArgDesc {
+			viaHelper := false
+			if h := s.Call.Common().StaticCallee(); h != nil && co.fn == shortName(s.Fn) && h != s.Fn && p.inClusterOf(s.Fn, h) {
+				// the consumed call sits in a helper split off the consumer, which hands its error back
+				for _, hs := range ErrSites(p) {
+					if hs.Fn == h && calleeName(hs.Call.Common()) == co.callee && hs.ArgDesc == co.arg {
+						viaHelper = true
+					}
+				}
+			}
+			if viaHelper || (co.fn == shortName(s.Fn) || p.inClusterOf(p.funcByShortName(co.fn), s.Fn)) && co.callee == calleeName(s.Call.Common()) && co.arg == s.ArgDesc {
 				matched[i]++
 				for _, k := range co.kinds {
 					allowed |= ek.Sentinel(k)
